@@ -453,6 +453,13 @@ pub struct TlsCase {
     /// requested host (hostname[:port] as the request carries it)
     pub host: String,
     pub payload: u32,
+    /// connections made earlier through the same connector service object, to hosts taken from
+    /// the certificate's DNS names (index into them); the server side is one acceptor for all
+    #[serde(default)]
+    pub prior: Vec<u8>,
+    /// an OpenSSL server restricted to TLS 1.2
+    #[serde(default)]
+    pub server_tls12: bool,
 }
 
 fn pattern(seed: u8, n: usize) -> Vec<u8> {
@@ -504,43 +511,42 @@ async fn run_tls(c: &TlsCase) -> CaseResult {
     certs::pki();
     let ips: Vec<IpAddr> = c.san_ip.iter().map(|b| IpAddr::V4(Ipv4Addr::new(127, 0, 0, *b))).collect();
     let (cert, key) = certs::leaf(&c.san_dns, &ips, c.trusted_issuer);
-    let (server_end, client_end) = pipe_pair();
     let n = c.payload as usize;
-    // server
-    let server = c.server;
-    let server_task = tokio::task::spawn_local(async move {
-        let r: Result<(), String> = async {
-            match server {
-                Lib::Rustls => {
-                    let cfg = rustls::ServerConfig::builder()
-                        .with_no_client_auth()
-                        .with_single_cert(vec![rustls_pki_types::CertificateDer::from(cert)], rustls_pki_types::PrivateKeyDer::Pkcs8(rustls_pki_types::PrivatePkcs8KeyDer::from(key)))
-                        .map_err(|e| format!("{e}"))?;
-                    let mut s = tokio_rustls::TlsAcceptor::from(Arc::new(cfg)).accept(server_end).await.map_err(|e| format!("{e}"))?;
-                    echo(&mut s, n).await
-                }
-                Lib::Openssl => {
-                    use openssl::{pkey::PKey, ssl::{Ssl, SslAcceptor, SslMethod}, x509::X509};
-                    let mut b = SslAcceptor::mozilla_intermediate_v5(SslMethod::tls()).map_err(|e| format!("{e}"))?;
-                    let pk = PKey::private_key_from_pkcs8(&key).map_err(|e| format!("{e}"))?;
-                    let x = X509::from_der(&cert).map_err(|e| format!("{e}"))?;
-                    b.set_private_key(&pk).map_err(|e| format!("{e}"))?;
-                    b.set_certificate(&x).map_err(|e| format!("{e}"))?;
-                    let acc = b.build();
-                    let ssl = Ssl::new(acc.context()).map_err(|e| format!("{e}"))?;
-                    let mut s = tokio_openssl::SslStream::new(ssl, server_end).map_err(|e| format!("{e}"))?;
-                    Pin::new(&mut s).accept().await.map_err(|e| format!("{e}"))?;
-                    echo(&mut s, n).await
-                }
-            }
+    // one server identity (and, for OpenSSL, one acceptor context: sessions can be resumed) for every
+    // connection of the case
+    enum Acc {
+        R(tokio_rustls::TlsAcceptor),
+        O(openssl::ssl::SslAcceptor),
+    }
+    let acc = match c.server {
+        Lib::Rustls => {
+            let cfg = rustls::ServerConfig::builder()
+                .with_no_client_auth()
+                .with_single_cert(vec![rustls_pki_types::CertificateDer::from(cert)], rustls_pki_types::PrivateKeyDer::Pkcs8(rustls_pki_types::PrivatePkcs8KeyDer::from(key)))
+                .map_err(|e| Fail::new("harness/setup", format!("{e}")))?;
+            Acc::R(tokio_rustls::TlsAcceptor::from(Arc::new(cfg)))
         }
-        .await;
-        r
-    });
-    let conn = Connection::new(c.host.clone(), client_end);
-    let hostname = connect::Host::hostname(&c.host).to_string();
-    let expect_ok = c.trusted_issuer && (hostname.parse::<IpAddr>().is_ok() || valid_dns_name(&hostname)) && covered(&hostname, &c.san_dns, &ips);
-    let res: Result<Result<(), String>, String> = match c.connector {
+        Lib::Openssl => {
+            use openssl::{pkey::PKey, ssl::{SslAcceptor, SslMethod, SslVersion}, x509::X509};
+            let h = |e: openssl::error::ErrorStack| Fail::new("harness/setup", format!("{e}"));
+            // (the older profile is a TLS 1.2 server: a session is resumable as soon as the handshake has completed)
+            let mut b = if c.server_tls12 { SslAcceptor::mozilla_intermediate(SslMethod::tls()).map_err(h)? } else { SslAcceptor::mozilla_intermediate_v5(SslMethod::tls()).map_err(h)? };
+            let pk = PKey::private_key_from_pkcs8(&key).map_err(h)?;
+            let x = X509::from_der(&cert).map_err(h)?;
+            b.set_private_key(&pk).map_err(h)?;
+            b.set_certificate(&x).map_err(h)?;
+            if c.server_tls12 {
+                b.set_max_proto_version(Some(SslVersion::TLS1_2)).map_err(h)?;
+            }
+            Acc::O(b.build())
+        }
+    };
+    // one connector service object for every connection of the case
+    enum Con {
+        R(connect::rustls_0_23::TlsConnectorService),
+        O(connect::openssl::TlsConnectorService),
+    }
+    let con = match c.connector {
         Lib::Rustls => {
             static CFG: std::sync::OnceLock<Arc<rustls::ClientConfig>> = std::sync::OnceLock::new();
             let cfg = CFG
@@ -550,15 +556,11 @@ async fn run_tls(c: &TlsCase) -> CaseResult {
                     Arc::new(rustls::ClientConfig::builder().with_root_certificates(roots).with_no_client_auth())
                 })
                 .clone();
-            let svc = connect::rustls_0_23::TlsConnector::service(cfg);
-            match tokio::time::timeout(Duration::from_secs(10), <connect::rustls_0_23::TlsConnectorService as Service<Connection<String, Pipe>>>::call(&svc, conn)).await {
-                Err(_) => return Err(Fail::new("C19/tls-hang", "TLS connect did not resolve within 10 s")),
-                Ok(Ok(mut s)) => Ok(roundtrip(&mut *s, n).await),
-                Ok(Err(e)) => Err(format!("{e}")),
-            }
+            Con::R(connect::rustls_0_23::TlsConnector::service(cfg))
         }
         Lib::Openssl => {
             use openssl::{ssl::{SslConnector, SslMethod}, x509::X509};
+            // (the service object is the case's own: whatever it remembers between calls stays in the case)
             static CON: std::sync::OnceLock<SslConnector> = std::sync::OnceLock::new();
             let con = CON
                 .get_or_init(|| {
@@ -567,31 +569,100 @@ async fn run_tls(c: &TlsCase) -> CaseResult {
                     b.build()
                 })
                 .clone();
-            let svc = connect::openssl::TlsConnector::service(con);
-            match tokio::time::timeout(Duration::from_secs(10), <connect::openssl::TlsConnectorService as Service<Connection<String, Pipe>>>::call(&svc, conn)).await {
-                Err(_) => return Err(Fail::new("C19/tls-hang", "TLS connect did not resolve within 10 s")),
-                Ok(Ok(mut s)) => Ok(roundtrip(&mut *s, n).await),
-                Ok(Err(e)) => Err(format!("{e}")),
-            }
+            Con::O(connect::openssl::TlsConnector::service(con))
         }
     };
-    server_task.abort();
-    let mut obs = Obs::new();
-    match (&res, expect_ok) {
-        (Ok(Ok(())), true) => {
-            obs.label("handshake-ok");
-        }
-        (Ok(Err(e)), true) => return Err(Fail::new("C19/tls-integrity", format!("handshake succeeded for {:?} but the data exchange failed: {}", c.host, e))),
-        (Err(e), true) => return Err(Fail::new("C19/tls-rejected", format!("the certificate (DNS {:?}, IP {:?}, trusted issuer) covers {:?} but the {:?} connector failed: {}", c.san_dns, ips, hostname, c.connector, e))),
-        (Ok(_), false) => return Err(Fail::new("C19/tls-accepted", format!("the {:?} connector returned a TLS stream for host {:?} although the certificate (DNS {:?}, IP {:?}, trusted issuer: {}) is not valid for it", c.connector, c.host, c.san_dns, ips, c.trusted_issuer))),
-        (Err(_), false) => {
-            obs.label("handshake-rejected");
+    // earlier connections through the same service object: hosts taken from the certificate's names
+    let mut hosts: Vec<String> = vec![];
+    for i in c.prior.iter().take(2) {
+        if !c.san_dns.is_empty() {
+            let d = &c.san_dns[*i as usize % c.san_dns.len()];
+            hosts.push(match d.strip_prefix("*.") {
+                Some(rest) => format!("w.{rest}"),
+                None => d.clone(),
+            });
         }
     }
-    obs.nontrivial = !expect_ok || c.payload > 16384;
+    let priors = hosts.len();
+    hosts.push(c.host.clone());
+    let mut obs = Obs::new();
+    let mut last_expect_ok = false;
+    let mut open: Vec<Box<dyn std::any::Any>> = vec![];
+    let mut servers = vec![];
+    for (k, host) in hosts.iter().enumerate() {
+        let (server_end, client_end) = pipe_pair();
+        let server_task = match &acc {
+            Acc::R(a) => {
+                let a = a.clone();
+                tokio::task::spawn_local(async move {
+                    let mut s = a.accept(server_end).await.map_err(|e| format!("{e}"))?;
+                    echo(&mut s, n).await
+                })
+            }
+            Acc::O(a) => {
+                let ssl = openssl::ssl::Ssl::new(a.context()).map_err(|e| Fail::new("harness/setup", format!("{e}")))?;
+                tokio::task::spawn_local(async move {
+                    let mut s = tokio_openssl::SslStream::new(ssl, server_end).map_err(|e| format!("{e}"))?;
+                    Pin::new(&mut s).accept().await.map_err(|e| format!("{e}"))?;
+                    echo(&mut s, n).await
+                })
+            }
+        };
+        let conn = Connection::new(host.clone(), client_end);
+        let hostname = connect::Host::hostname(host).to_string();
+        let expect_ok = c.trusted_issuer && (hostname.parse::<IpAddr>().is_ok() || valid_dns_name(&hostname)) && covered(&hostname, &c.san_dns, &ips);
+        let res: Result<Result<(), String>, String> = match &con {
+            Con::R(svc) => match tokio::time::timeout(Duration::from_secs(10), <connect::rustls_0_23::TlsConnectorService as Service<Connection<String, Pipe>>>::call(svc, conn)).await {
+                Err(_) => return Err(Fail::new("C19/tls-hang", "TLS connect did not resolve within 10 s")),
+                Ok(Ok(mut s)) => {
+                    let r = roundtrip(&mut *s, n).await;
+                    open.push(Box::new(s));
+                    Ok(r)
+                }
+                Ok(Err(e)) => Err(format!("{e}")),
+            },
+            Con::O(svc) => match tokio::time::timeout(Duration::from_secs(10), <connect::openssl::TlsConnectorService as Service<Connection<String, Pipe>>>::call(svc, conn)).await {
+                Err(_) => return Err(Fail::new("C19/tls-hang", "TLS connect did not resolve within 10 s")),
+                Ok(Ok(mut s)) => {
+                    let r = roundtrip(&mut *s, n).await;
+                    open.push(Box::new(s));
+                    Ok(r)
+                }
+                Ok(Err(e)) => Err(format!("{e}")),
+            },
+        };
+        // earlier connections stay open (a pool keeps them) while later ones are made
+        servers.push(server_task);
+        let nth = if priors > 0 { format!(" (connection {} of {} through one service object; earlier hosts {:?})", k + 1, hosts.len(), &hosts[..k]) } else { String::new() };
+        match (&res, expect_ok) {
+            (Ok(Ok(())), true) => {
+                if k + 1 == hosts.len() {
+                    obs.label("handshake-ok");
+                } else {
+                    obs.label("earlier-handshake-ok-on-the-same-service");
+                }
+            }
+            (Ok(Err(e)), true) => return Err(Fail::new("C19/tls-integrity", format!("handshake succeeded for {:?} but the data exchange failed: {}{}", host, e, nth))),
+            (Err(e), true) => return Err(Fail::new("C19/tls-rejected", format!("the certificate (DNS {:?}, IP {:?}, trusted issuer) covers {:?} but the {:?} connector failed: {}{}", c.san_dns, ips, hostname, c.connector, e, nth))),
+            (Ok(_), false) => return Err(Fail::new("C19/tls-accepted", format!("the {:?} connector returned a TLS stream for host {:?} although the certificate (DNS {:?}, IP {:?}, trusted issuer: {}) is not valid for it{}", c.connector, host, c.san_dns, ips, c.trusted_issuer, nth))),
+            (Err(_), false) => {
+                if k + 1 == hosts.len() {
+                    obs.label("handshake-rejected");
+                }
+            }
+        }
+        last_expect_ok = expect_ok;
+    }
+    drop(open);
+    for t in servers {
+        t.abort();
+    }
+    let hostname = connect::Host::hostname(&c.host).to_string();
+    obs.nontrivial = !last_expect_ok || c.payload > 16384;
     obs.label_if(hostname.parse::<IpAddr>().is_ok(), "ip-literal-host");
     obs.label_if(!c.trusted_issuer, "untrusted-issuer");
     obs.label_if(!valid_dns_name(&hostname) && hostname.parse::<IpAddr>().is_err(), "invalid-name");
+    obs.label_if(obs.labels.contains(&"earlier-handshake-ok-on-the-same-service") && !last_expect_ok, "rejected-after-an-accepted-host");
     Ok(obs)
 }
 
@@ -664,16 +735,17 @@ pub fn tls_strategy() -> impl Strategy<Value = TlsCase> {
                 }),
         ],
         prop_oneof![3 => 0u32..200, 1 => prop::sample::select(vec![16384u32, 16385, 65536])],
+        prop_oneof![3 => Just(vec![]), 2 => prop::collection::vec(any::<u8>(), 1..3)],
+        any::<bool>(),
     )
-        .prop_map(|(connector, server, san_dns, san_ip, trusted_issuer, host, payload)| {
+        .prop_map(|(connector, server, san_dns, san_ip, trusted_issuer, host, payload, prior, server_tls12)| {
             let host = if host == "LONG" { format!("{}.test", "a".repeat(300)) } else { host };
-            (connector, server, san_dns, san_ip, trusted_issuer, host, payload)
+            TlsCase { connector, server, san_dns, san_ip, trusted_issuer, host, payload, prior, server_tls12 }
         })
-        .prop_map(|(connector, server, san_dns, san_ip, trusted_issuer, host, payload)| TlsCase { connector, server, san_dns, san_ip, trusted_issuer, host, payload })
 }
 
 const RULE_TCP: &str = "(0..4 loopback targets each live (counts accepts) or closed (bound, not listening), host string name / name:port / localhost / LOCALHOST:port / IPv4 literal / literal:port, addresses pre-set through with_addr / set_addr / set_addrs or not, optional set_port, custom resolver answering ok(list) / empty / error with a call log, optional local bind address 127.0.0.2 or ::1 with targets on either loopback family (an address of the other family fails like a closed one and the next is tried); run through Connector, Resolver+TcpConnector, or TcpConnector alone); oracle: resolver not consulted when addresses are pre-set or the host is an IP literal (dialled at the request's port), otherwise exactly one lookup (hostname, port); NoRecords / Resolver / Unresolved errors; the stream's peer is the first live address in order, every live listener sees exactly the connections the in-order dialling implies, all-closed => Io(ConnectionRefused); non-trivial = a closed address before a live one, >= 2 live addresses, a bypassed resolver, or a resolution error";
-const RULE_TLS: &str = "(connector in {rustls 0.23, OpenSSL}, server in {rustls, OpenSSL}, leaf certificate with generated DNS / IP subject alternative names signed by the trusted or an untrusted CA, requested host from covered / uncovered / wildcard-covered / IP-literal / syntactically invalid printable names (fixed examples and valid names decorated with brackets, slashes, blanks and other punctuation in front, behind or around) with or without port, payload up to 64 KiB) over in-memory pipes; oracle: a TLS stream is returned iff the issuer is trusted and the name is valid and covered (reference matcher), then the payload round-trips in both directions; otherwise an error, never a panic; non-trivial = a case that must fail, or payload > 16 KiB";
+const RULE_TLS: &str = "(connector in {rustls 0.23, OpenSSL}, server in {rustls, OpenSSL}, leaf certificate with generated DNS / IP subject alternative names signed by the trusted or an untrusted CA, requested host from covered / uncovered / wildcard-covered / IP-literal / syntactically invalid printable names (fixed examples and valid names decorated with brackets, slashes, blanks and other punctuation in front, behind or around) with or without port, payload up to 64 KiB; optionally one or two earlier connections through the same connector service object to hosts named in the certificate, the server being one acceptor for all of them, an OpenSSL server optionally limited to TLS 1.2 so that sessions can be resumed) over in-memory pipes; oracle (every connection): a TLS stream is returned iff the issuer is trusted and the name is valid and covered (reference matcher), then the payload round-trips in both directions; otherwise an error, never a panic; non-trivial = a case that must fail, or payload > 16 KiB";
 
 pub fn run(ctx: &Ctx) {
     ctx.assume("the default (system) resolver is not exercised (no DNS in the sandbox); hostname coverage reference: exact or single-label wildcard DNS match, IP literals only against IP SANs");
